@@ -1,16 +1,18 @@
 import Slock.Properties.EngineSim
+import Slock.Properties.EngineSimTick
 import Slock.Proofs.EngineSimCongr
 import Slock.Proofs.EngineSimWU
 import Slock.Proofs.EngineQuiet
+import Slock.Proofs.EngineSimTickSQTick
 import Slock.Properties.C04
 /-!
-# EngineSimRun — the closing statement of the stage-2 → stage-1 simulation, for runs without clock ticks
+# EngineSimRun — the closing statement of the stage-2 → stage-1 simulation
 
-For every sequence of LOCK / UNLOCK / role-flip operations of the record-level model (no clock ticks: the two sweeps are not simulated,
-see `EngineSim.lean`) in which no command carries a value frame, no key record ever has a value cell, and RequestIds are connection-unique (the premise of
-C03 / C05), there is a sequence of stage-1 operations of the same length whose
-stage-1 run ends in a state `Equiv` to `abs` of the record-level state (`sim_run`). Stage-1 theorems about reachable states then hold
-of `abs` of such record-level states: `C01_mutex_transfers`.
+For every sequence of LOCK / UNLOCK / role-flip operations AND CLOCK TICKS of the record-level model in which no command carries a value
+frame, no key record ever has a value cell, every tick happens on the leader (`Properties/EngineSimTick.lean`: off-leader the record-level
+expiry sweep defers, stage 1 has no such rule) and RequestIds are connection-unique (the premise of C03 / C05), there is a sequence of
+stage-1 operations of the same length whose stage-1 run ends in a state `Equiv` to `abs` of the record-level state (`sim_run`). Stage-1
+theorems about reachable states then hold of `abs` of such record-level states: `C01_mutex_transfers`.
 
 The UNLOCK commands of the stage-1 sequence carry the `mgr` flag "does the key record exist" (stage 1 has no key records; the flag
 selects between its STATE_ERROR and UNLOCK_ERROR replies off-leader).
@@ -24,6 +26,7 @@ def StepOK (s : Engine2.DB) : Engine2.Op → Prop
   | .lock c none => (s.getKey c.key).cell = none
   | .unlock _ none => True
   | .setLeader _ => True
+  | .tick => s.leader = true
   | _ => False
 
 /-- … on a whole sequence -/
@@ -49,14 +52,6 @@ theorem reachable2_step {s : Engine2.DB} (h : Reachable2 s) (o : Engine2.Op) : R
   rw [List.foldl_append]
   rfl
 
-/-- what is carried along the stage-1 run -/
-structure Inv1 (a : Engine.DB) : Prop where
-  inv : Engine.DBInv a
-  quiet : Engine.QuietDB a
-  wu : Engine.WU a
-
-theorem Inv1.init (now : Nat) : Inv1 (Engine.DB.init now) := ⟨Engine.DBInv.init now, Engine.QuietDB.init now, Engine.WU.init now⟩
-
 /-- **one step**: the record-level operation on `s` and its stage-1 image on any `a` that is `Equiv` to `abs s` -/
 theorem sim_step {s : Engine2.DB} (hr : Reachable2 s) {a : Engine.DB} (he : Equiv (Engine2.abs s) a) (hi : Inv1 a) (o : Engine2.Op) (ho : StepOK s o)
     (hf : match img s o with | .lock c => Engine.Fresh a c | _ => True) :
@@ -73,8 +68,11 @@ theorem sim_step {s : Engine2.DB} (hr : Reachable2 s) {a : Engine.DB} (he : Equi
       have hcell : (s.getKey c.key).cell = none := ho
       obtain ⟨e1, _⟩ := sim_lock hr c hcell (ki c.key) (fl c.key)
       obtain ⟨e2, _⟩ := opLock_congr he c
-      have hfa : Engine.FreshK a c := fun w hw => hf w (Engine.mem_getKey_waiters hw)
-      exact ⟨e1.trans e2, Engine.opLock_inv a c hi.inv, Engine.opLock_quiet a c hi.quiet, Engine.opLock_wu a c hfa hi.wu⟩
+      have hf' : Engine.Fresh a c := hf
+      have hfa : Engine.FreshK a c := fun w hw => hf' w (Engine.mem_getKey_waiters hw)
+      exact ⟨e1.trans e2, Engine.opLock_inv a c hi.inv, Engine.opLock_quiet a c hi.quiet, Engine.opLock_wu a c hfa hi.wu,
+        Engine.opLock_cinv_kn a c hi.kn, SimTick.opLock_sq a c hi.kn hi.sq, Engine.opLock_KW a c hi.kw, Engine.opLock_HN a c hi.kw hi.hn,
+        Engine.opLock_qinv a c hf' hi.qinv⟩
   | unlock c d =>
     cases d with
     | some _ => exact absurd ho (by simp [StepOK])
@@ -83,10 +81,18 @@ theorem sim_step {s : Engine2.DB} (hr : Reachable2 s) {a : Engine.DB} (he : Equi
         rw [hkabs]; exact Engine.getKey_wu hi.wu c.key
       obtain ⟨e1, _⟩ := sim_unlock hr c (ki c.key) (fl c.key) wu
       obtain ⟨e2, _⟩ := opUnlock_congr he { c with mgr := s.hasKey c.key }
-      exact ⟨e1.trans e2, Engine.opUnlock_inv a _ hi.inv, Engine.opUnlock_quiet a _ hi.quiet, Engine.opUnlock_wu a _ hi.wu⟩
-  | tick => exact absurd ho (by simp [StepOK])
+      exact ⟨e1.trans e2, Engine.opUnlock_inv a _ hi.inv, Engine.opUnlock_quiet a _ hi.quiet, Engine.opUnlock_wu a _ hi.wu,
+        Engine.opUnlock_kn a _ hi.kn, SimTick.opUnlock_sq a _ hi.kn hi.sq, Engine.opUnlock_KW a _ hi.kw, Engine.opUnlock_HN a _ hi.kw hi.hn,
+        Engine.opUnlock_qinv a _ hi.qinv⟩
+  | tick =>
+    have hld : s.leader = true := ho
+    obtain ⟨e1, _, i1⟩ := sim_tick hr hld he hi
+    exact ⟨e1, i1⟩
   | setLeader b =>
-    exact ⟨setLeader_congr he b, hi.inv.of_keys_eq rfl, hi.quiet.of_keys_eq rfl, hi.wu.of_keys_eq rfl⟩
+    exact ⟨setLeader_congr he b, hi.inv.of_keys_eq rfl, hi.quiet.of_keys_eq rfl, hi.wu.of_keys_eq rfl, hi.kn.of_keys_eq rfl,
+      hi.sq.of_keys_eq rfl (Nat.le_refl _), hi.kw.of_sub (fun _ _ hx => hx.of_keys_eq rfl),
+      ⟨hi.hn.ec, hi.hn.hu.of_keys_seq rfl (Nat.le_refl _), fun n x hx => hi.hn.ok n x (hx.of_keys_eq rfl), fun n x hx => hi.hn.lb n x (hx.of_keys_eq rfl)⟩,
+      ⟨hi.qinv.1.of_sub (fun _ hx => hx), hi.qinv.2.of_keys_eq rfl⟩⟩
 
 /-- the stage-1 sequence of a record-level run -/
 def imgs : Engine2.DB → List Engine2.Op → List C01.Op
@@ -198,5 +204,29 @@ example : ∀ x ∈ issued2 demo, (issued2 demo).count x ≤ 1 := by decide
 
 /-- after the release the queued request holds the lock -/
 example : ((Engine2.run (Engine2.DB.init 100 0) demo).getKey 7).holders.length = 1 := by decide
+
+/-! ### … and with clock ticks: a request that times out, a hold that expires (both sweeps fire; every tick on the leader) -/
+
+def demoT : List Engine2.Op := [.lock tH none, .lock tW none, .tick, .tick, .tick]
+
+example : RunOK (Engine2.DB.init 100 0) demoT := by
+  refine ⟨?_, ?_, ?_, ?_, ?_, trivial⟩
+  · show ((Engine2.DB.init 100 0).getKey tH.key).cell = none
+    decide
+  · show ((Engine2.run (Engine2.DB.init 100 0) [.lock tH none]).getKey tW.key).cell = none
+    decide
+  · show (Engine2.run (Engine2.DB.init 100 0) [.lock tH none, .lock tW none]).leader = true
+    decide
+  · show (Engine2.run (Engine2.DB.init 100 0) [.lock tH none, .lock tW none, .tick]).leader = true
+    decide
+  · show (Engine2.run (Engine2.DB.init 100 0) [.lock tH none, .lock tW none, .tick, .tick]).leader = true
+    decide
+
+example : ∀ x ∈ issued2 demoT, (issued2 demoT).count x ≤ 1 := by decide
+
+/-- the second tick answers the queued request with TIMEOUT (8), the third ends the hold with EXPRIED (9); afterwards nothing is held -/
+example : (Engine2.step (Engine2.run (Engine2.DB.init 100 0) [.lock tH none, .lock tW none, .tick]) .tick).2.map (·.r.result) = [8] := by decide
+example : (Engine2.step (Engine2.run (Engine2.DB.init 100 0) [.lock tH none, .lock tW none, .tick, .tick]) .tick).2.map (·.r.result) = [9] := by decide
+example : ((Engine2.run (Engine2.DB.init 100 0) demoT).getKey 7).holders.length = 0 := by decide
 
 end Slock.SimP
